@@ -123,6 +123,9 @@ RenameSet methodRenameDictionary[] = {
 };
 
 const char *pythonKeywords[] = {
+  "False",
+  "None",
+  "True",
   "and",
   "as",
   "assert",
